@@ -122,7 +122,8 @@ def confirm(prop, path):
         outs.append((r.returncode, r.stdout))
     if outs[0] != outs[1]:
         return None
-    return outs[0][0] == 1
+    # reproduced = the replay itself says so (a crash of the replay also exits non-zero and must not count)
+    return outs[0][0] == 1 and "\nREPRODUCED " in "\n" + outs[0][1]
 
 
 def do_replay(mod, prop, path):
